@@ -65,6 +65,18 @@ stylesheet.between, output.newline, stylesheet.intUnit / floatUnit; output.selfC
 newline, baseIndent) are repeated on every such form with the text the documentation states for the form; same layer
 stacks and values (the empty string always among them) as the plain entries.
 
+SCOPE entries of the effect table (cfgeffect_util.CSS_SCOPE_EFFECTS) and THE SCOPED TABLE (gen_scoped_effects): every entry
+above expands its abbreviation WITHOUT a `context`, so a consumer of an option that sits in a scope branch of the resolver
+(stylesheet: value scope = the abbreviation is the VALUE of the property the context names, '@@property', '@@section',
+'@@global'; markup: the context names the parent element) is never judged.  (a) `stylesheet.fuzzySearchMinScore` (no
+entry before; values 0 / 0.5 / 1, abbreviations that are prefixes of the one candidate and score 3/10 and 8/10 by the
+documented closed form) in global, '@@property', '@@section' and VALUE scope, and stylesheet.intUnit / floatUnit /
+unitAliases / shortHex in VALUE scope: full entries of the effect table (every winning layer x value).  (b) every entry
+without a context of its own is repeated under the contexts that leave its documented effect unchanged
+(cfgeffect_util.UNCHANGED_UNDER).  The flattened-configuration clause carries the call's non-layer entries (`context`)
+over to the flattened run.  The expand MODEL treats a call with a `context` as outside its domain (is_absent k_context):
+these cases are judged by the oracle (and the Config model) only.
+
 THE KEY-SHAPE TABLE (gen_key_shapes): the statement speaks of EVERY snippet and variable key, THE TABLE plants one
 all-lower-case probe key per section.  Keys in every letter-case pattern, with digits and with the separators the
 abbreviation syntax allows in a name, and re-cased names of built-in keys (KEY_SHAPES) x syntax names of the effect table x
@@ -454,6 +466,10 @@ def observe_expand(tb, case, ty, syn, expected, installed, patches, fails):
     flat = {'type': ty, 'syntax': syn}
     for sec in SECTIONS:
         flat[sec] = {k: v for k, (v, i, pat) in expected[sec].items()}
+    for k, v in user0.items():
+        # entries of the call's config that are no layer (the scope `context`, ...) belong to the call, not to the merge
+        if k not in flat:
+            flat[k] = copy.deepcopy(v)
     tb.uninstall()           # the flattened configuration runs on the unpatched tables
     fk = (abbr, hash(strict(flat)))
     if fk not in _FLAT_CACHE:
@@ -742,6 +758,46 @@ def gen_effects(ctx, tb, thorough):
                             elif variant == 'planted':
                                 assign[2] = e.values[(vi + 1) % k]
                             cases.append(effect_case(ty, syn, cls, e, assign, variant))
+    return cases
+
+
+def gen_scoped_effects(ctx, tb, thorough):
+    """SCOPE CONTEXTS.  The effect table expands every abbreviation without a `context`; the entries that carry a scope of
+    their own (cfgeffect_util.CSS_SCOPE_EFFECTS: value scope, @@property, @@section) are part of it.  Here every OTHER
+    entry of the effect table is repeated under the scope contexts that leave its documented effect unchanged
+    (cfgeffect_util.UNCHANGED_UNDER: markup = a parent element name; stylesheet = '@@property', '@@global'), so that the
+    consumers of the options are judged on the context paths as well.  Thorough: every (syntax name, entry, context,
+    winning layer, value) with one variant drawn from ctx.rng; quick: every (syntax name, entry) with ONE context, winning
+    layer, value and variant drawn from ctx.rng."""
+    rng = ctx.rng
+    cases = []
+    for ty in tb.base['SYNTAXES']:
+        for syn, cls in effect_names(tb, ty, thorough):
+            fam = fx.family(ty, syn)
+            for e in fx.EFFECTS[ty]:
+                contexts = getattr(e, 'contexts', None) or fx.UNCHANGED_UNDER.get(ty) or []
+                if fam not in e.families or 'context' in e.comp or not contexts:
+                    continue
+                k = len(e.values)
+                plantable = cls != 'unknown'
+                layers = [L for L in (3, 4, 5) if not (L == 4 and syn == ty)]
+                if thorough:
+                    combos = [(c, L, vi) for c in contexts for L in layers for vi in range(k)]
+                else:
+                    combos = [(rng.choice(contexts), rng.choice(layers), rng.randrange(k))]
+                for cx, L, vi in combos:
+                    variant = rng.choice(['alone'] + (['stacked'] if L > 3 else []) + (['planted'] if plantable else []))
+                    assign = {L: e.values[vi]}
+                    if variant == 'stacked':
+                        for j in range(3, L):
+                            if not (j == 4 and syn == ty):
+                                assign[j] = e.values[(vi + L - j) % k]
+                    elif variant == 'planted':
+                        assign[2] = e.values[(vi + 1) % k]
+                    c = effect_case(ty, syn, cls, e, assign, variant)
+                    c['user']['context'] = copy.deepcopy(cx)
+                    c['scope'] = cx['name']
+                    cases.append(c)
     return cases
 
 
@@ -1042,7 +1098,11 @@ def summarize(tb, case, res, rng, with_model):
             # the EXPAND model (proofs/ConfigExpand.v): extracted for a markup type, evaluated inside Coq for the
             # stylesheet type (its pipeline model uses floats)
             try:
-                if ty == 'stylesheet':
+                if 'context' in case['user']:
+                    # a call with a scope `context` is outside the expand model's domain (ConfigExpand.v: is_absent
+                    # k_context): judged by the oracle and the Config model only; not spent on the in-Coq sample
+                    sm['xmodel'] = ('context', None)
+                elif ty == 'stylesheet':
                     sm['xmodel'] = ('coq', xu.coq_case(tb, res['eff'], case['abbr']))
                 else:
                     sm['xmodel'] = ('wire', xu.wire_expand(tb, res['eff'], case['abbr']))
@@ -1137,6 +1197,9 @@ def run_cases(ctx, tb, model, cases, label, pool, xmodel=None):
                 xm.append((case, sm))
             elif x[0] == 'coq':
                 XSTATE['coq'].append((case, sm, x[1]))
+            elif x[0] == 'context':
+                xc0 = expand_corr(ctx)
+                xc0['context_cases_oracle_only'] = xc0.get('context_cases_oracle_only', 0) + 1
             else:
                 expand_corr(ctx)['unencodable'] += 1
         xouts = []
@@ -1271,6 +1334,10 @@ def cover_case(ctx, tb, case, sm):
         verdict = sm['expand']['visible'] if sm['expand'] else 'not-expanded'
         ctx.cover('effect:%s:%s:%s' % (ty, case['key'], verdict))
         ctx.cover('effect-variant:%s' % case.get('variant'))
+        cx = (case.get('user') or {}).get('context')
+        if cx is not None:
+            name = str(cx.get('name'))
+            ctx.cover('effect-scope:%s:%s:%s' % (ty, name if name.startswith('@@') or ty == 'markup' else 'value-scope', verdict))
         win = sm.get('effect_win')
         if win is not None:
             ctx.cover('effect-winner:%s:%s' % (LAYERS[win[0]], 'empty-or-false-value' if win[1] else 'other-value'))
@@ -1319,6 +1386,7 @@ def run(ctx):
     effects = gen_effects(ctx, tb, thorough)      # after gen_random: the random stream of earlier runs is unchanged
     effects += gen_empty_winner(tb, thorough)
     shapes = gen_key_shapes(ctx, tb, thorough)    # after every earlier consumer of ctx.rng
+    scoped = gen_scoped_effects(ctx, tb, thorough)   # last consumer of ctx.rng among the generators
     ctx.cov['rule'] = (
         'EXHAUSTIVE table: both abbreviation types x every syntax name (known: SYNTAXES[type]; cross: syntaxes of the other '
         'type; pseudo: keys of SYNTAX_CONFIG that are no listed syntax %r; unknown: %r) x {variables, snippets, options} x '
@@ -1341,7 +1409,16 @@ def run(ctx):
         'stylesheet.after (before a following declaration and as the last thing of the output), stylesheet.between, '
         'output.newline, stylesheet.intUnit / floatUnit on declarations of the forms %r (`!important` flag, several values, '
         'float, colour, flag without value); output.selfClosingStyle / attributeQuotes / indent / newline / baseIndent on '
-        'nested, repeated and attribute carrying elements; same layer stacks (%s).  KEY SHAPES (gen_key_shapes; the '
+        'nested, repeated and attribute carrying elements; same layer stacks (%s).  SCOPE entries (the call\'s `context`; '
+        '%d stylesheet entries of the effect table, cfgeffect_util.CSS_SCOPE_EFFECTS, options %r): '
+        'stylesheet.fuzzySearchMinScore with the values %r on abbreviations that are prefixes of the one candidate the case '
+        'supplies (%r: abbreviation, documented score) matched as property name without context and under @@property, as '
+        'raw snippet name without context and under @@section, and as the typed VALUE in value scope (context names the '
+        'CSS property whose snippet holds the keyword); intUnit / floatUnit / unitAliases / shortHex in value scope; all '
+        'with the layer stacks of the plain entries.  SCOPED table (gen_scoped_effects): every effect entry without a '
+        'context of its own repeated under the contexts that leave its documented effect unchanged %r (%s; %d cases); a '
+        'call with a `context` is outside the expand MODEL (oracle and Config model only); the flattened run keeps the '
+        'call\'s context.  KEY SHAPES (gen_key_shapes; the '
         'statement speaks of EVERY snippet and variable key): syntax names as for the effect table x keys %r (every letter '
         'case pattern, digits, the separators the abbreviation syntax allows in a name, re-cased names of built-in keys) x '
         'winning layer = each of the six layers, the key planted in that layer alone | alone while every other layer '
@@ -1362,6 +1439,10 @@ def run(ctx):
            len(fx.MARKUP_FORM_EFFECTS), len(fx.CSS_FORM_EFFECTS), [f[0] for f in fx.CSS_FORMS],
            'every winning layer and variant' if thorough else 'one winning layer and variant per (name, entry, value) drawn '
            'from the seeded rng',
+           len(fx.CSS_SCOPE_EFFECTS), sorted(set(e.key for e in fx.CSS_SCOPE_EFFECTS)), fx.FUZZY_VALUES, fx.FUZZY_ABBRS,
+           fx.UNCHANGED_UNDER,
+           'every (name, entry, context, winning layer, value), one variant drawn from the seeded rng' if thorough else
+           'per (name, entry) one context, winning layer, value and variant drawn from the seeded rng', len(scoped),
            {'%s/%s' % k: v for k, v in KEY_SHAPES.items()},
            'all three variants' if thorough else 'one variant per (name, section, key, layer) drawn from the seeded rng',
            n_rand))
@@ -1374,6 +1455,7 @@ def run(ctx):
         run_cases(ctx, tb, model, aliased, 'aliased', pool, xmodel)
         run_cases(ctx, tb, model, effects, 'effects', pool, xmodel)
         run_cases(ctx, tb, model, shapes, 'keyshapes', pool, xmodel)
+        run_cases(ctx, tb, model, scoped, 'scoped-effects', pool, xmodel)
         run_cases(ctx, tb, model, rnd, 'random', pool, xmodel)
     if xmodel is not None:
         coq_expand_tie(ctx, thorough)
@@ -1393,7 +1475,9 @@ def run(ctx):
         'sections': list(SECTIONS), 'layer_subsets': 64, 'probes_per_cell': 2, 'table_cells': len(table),
         'natural_cells': len(natural), 'aliased_cases': len(aliased), 'key_shape_cases': len(shapes),
         'key_shapes': {'%s/%s' % k: v for k, v in KEY_SHAPES.items()},
-        'effect_cases': len(effects), 'effect_entries': [e.name for es in fx.EFFECTS.values() for e in es]}
+        'effect_cases': len(effects), 'scoped_effect_cases': len(scoped),
+        'scope_entries': [e.name for e in fx.CSS_SCOPE_EFFECTS], 'scope_contexts': fx.UNCHANGED_UNDER,
+        'effect_entries': [e.name for es in fx.EFFECTS.values() for e in es]}
     ctx.assumptions += [
         'values of options/snippets/variables are abstracted to ids in the model comparison (the property is about WHICH '
         'layer wins); the oracle compares the implementation\'s values themselves (identity or type-strict structure)',
